@@ -501,7 +501,7 @@ pub fn run(r: &Report) {
     let st = jobs
         .par_iter()
         .fold(Stats::default, |mut st, (i, mm)| {
-            if r.over_budget_frac(0.95) {
+            if r.over_budget_frac(0.8) {
                 capped.store(true, std::sync::atomic::Ordering::Relaxed);
                 st.count("mseg.skipped_by_cap", 1);
                 return st;
